@@ -510,10 +510,11 @@ def coverage(agg, plan: dict) -> dict:
     return {
         "distinct_nontrivial": len(agg.nontrivial_keys),
         "fault_plans_enumerated": agg.extra.get("fault_plans", 0),
+        "evaluations_measured": agg.extra.get("fault_plans", 0),
         "fault_plans_that_raised": agg.extra.get("fault_plans_fired", 0),
         "configurations": agg.extra.get("configurations", 0),
         "exhaustive": False,
-        "rule": "one case = one seeded configuration (modules, bindings of int/float/len, bodies, call graph); for it ALL fault positions x fault kinds of one drawn comptime body are enumerated, each as a fresh set of modules and a 2-5 op history; distinct = (configuration hash, fault kind, position); non-trivial = the fault actually fired (an op raised). Enumeration is complete per configuration; configurations are sampled.",
+        "rule": "one evaluation = one fault plan (a fresh set of modules + a 2-5 op history with one fault kind at one position); one case = one seeded configuration (modules, bindings of int/float/len, bodies, call graph); for it ALL fault positions x fault kinds of one drawn comptime body are enumerated, each as a fresh set of modules and a 2-5 op history; distinct = (configuration hash, fault kind, position); non-trivial = the fault actually fired (an op raised). Enumeration is complete per configuration; configurations are sampled.",
         "components_real": ["tracing/builtins_mock.py mock_builtins", "tracing/function.py trace_function/trace_call",
                             "tracing/state.py", "definition/traced.py", "engine + compiler worklists", "decorators"],
         "components_stub": ["compat shim (3 patch points)"],
